@@ -186,10 +186,10 @@ func crashSignature(stderr string) string {
 
 var raceFrameRe = regexp.MustCompile(`(?m)^\s+(/\S+\.go):\d+`)
 
-// raceSignature inspects a race detector report. It returns ok=false unless BOTH stacks
-// of the first report contain a frame in the module under test (not in the harness, not
-// in a third-party module): the simulator's own park/release channels and the libraries
-// are not what the property is about.
+// raceSignature inspects a race detector report. It returns ok=false unless at least one
+// of the two access stacks of the first report contains a frame in the module under test
+// (not in the harness, not in a third-party module): the simulator's own park/release
+// channels and the libraries' internals are not what the property is about.
 func raceSignature(stderr, repo string) (sig string, ok bool) {
 	i := strings.Index(stderr, "WARNING: DATA RACE")
 	if i < 0 {
@@ -223,9 +223,15 @@ func raceSignature(stderr, repo string) (sig string, ok bool) {
 			break
 		}
 		if found == "" {
-			return "", false
+			found = "(outside the module under test)"
 		}
 		sites = append(sites, found)
+	}
+	// at least one of the two accesses must be made by code of the module under test
+	// (the other one may be a library reading memory that code handed out, e.g. the JSON
+	// encoder marshalling a response while the next handler reuses its buffer)
+	if strings.HasPrefix(sites[0], "(outside") && strings.HasPrefix(sites[1], "(outside") {
+		return "", false
 	}
 	return "data race: " + sites[0] + " / " + sites[1], true
 }
